@@ -293,12 +293,16 @@ func oracleTokens(c *caseCtx, q core.Query, r core.Result) {
 			c.Rep.Violation(c.witness("TOKEN other-file type="+string(t.Type), desc+": token for another file", q, nil))
 			continue
 		}
+		origin := "computed"
+		if c.nodeRangeSet(q.Path, q.File)[t.Range] {
+			origin = "parser-node-range" // the range of an AST node the parser (recovery) produced, passed through
+		}
 		if p := postab.CheckRange(tabs, t.Range); p != "" {
-			c.Rep.Violation(c.witness("TOKEN range-malformed type="+string(t.Type)+" "+problemClass(p), desc+": "+p, q, nil))
+			c.Rep.Violation(c.witness("TOKEN range-malformed type="+string(t.Type)+" "+problemClass(p)+" "+origin, desc+": "+p, q, nil))
 			continue
 		}
 		if t.Range.End.Byte <= t.Range.Start.Byte {
-			c.Rep.Violation(c.witness("TOKEN empty type="+string(t.Type), desc+": empty token", q, nil))
+			c.Rep.Violation(c.witness("TOKEN empty type="+string(t.Type)+" "+origin, desc+": empty token", q, nil))
 		}
 		if i > 0 {
 			prev := toks[i-1]
